@@ -162,6 +162,13 @@ func (w *World) scopeFunctions() []*ssa.Function {
 						if f != nil && f.Synthetic == "" && f.Pkg == p {
 							addFn(f)
 						}
+						// promoted-method wrappers of types listed with `sweepwrappers`
+						if f != nil && f.Synthetic != "" && len(f.Blocks) > 0 && w.spec.SweepWrappers[p.Pkg.Path()+"."+m.Name()] && strings.HasPrefix(f.Synthetic, "wrapper") && f.Name() != "Lock" && f.Name() != "Unlock" && f.Name() != "TryLock" && f.Name() != "lockSlow" && f.Name() != "unlockSlow" && t != m.Type() {
+							if !seen[f] {
+								seen[f] = true
+								out = append(out, f)
+							}
+						}
 					}
 				}
 			}
